@@ -865,7 +865,7 @@ fn gen(a: &Args) {
     let t_0 = std::time::Instant::now();
     // ---- (a) codec: catalogs through the schema API
     for sc in boundary_scats(thorough) { codec_case(&mut w, &mut tmp, &sc, "codec_boundary"); }
-    let n_codec = if thorough { 4000 } else { 160 };
+    let n_codec = if thorough { 2500 } else { 160 };
     for i in 0..n_codec {
         let shape = match i % 10 { 7 => 1, 8 | 9 => 2, _ => 0 };
         let sc = gen_scat(&mut rng, shape);
@@ -873,7 +873,7 @@ fn gen(a: &Args) {
     }
     let t_a = std::time::Instant::now();
     // ---- (b) raw streams through deserialize / load
-    let n_dec = if thorough { 5000 } else { 240 };
+    let n_dec = if thorough { 3000 } else { 240 };
     for i in 0..n_dec {
         let mut b = valid_body(&mut rng, &mut tmp);
         let k = 1 + rng.below(3);
@@ -886,7 +886,7 @@ fn gen(a: &Args) {
         let mut n = b"ab".to_vec(); n.extend_from_slice(s); n.push(b'c');
         dec_case(&mut w, &stream_with_name(&n), "dec_utf8");
     }
-    let n_utf = if thorough { 3000 } else { 120 };
+    let n_utf = if thorough { 2000 } else { 120 };
     for _ in 0..n_utf {
         // random short byte strings as a name, biased to lead/continuation bytes
         let n = 1 + rng.below(5) as usize;
@@ -903,7 +903,7 @@ fn gen(a: &Args) {
         // the built-in empty schema comes first or last: cut the stream at every length
         for cut in 0..=body.len() { dec_case(&mut w, &body[..cut], "dec_every_prefix"); }
     }
-    let n_rand = if thorough { 2000 } else { 100 };
+    let n_rand = if thorough { 1000 } else { 100 };
     for _ in 0..n_rand { let n = rng.below(60) as usize; let b = rng.bytes(n); dec_case(&mut w, &b, "dec_random"); }
     // headers
     {
@@ -927,7 +927,7 @@ fn gen(a: &Args) {
     }
     let t_b = std::time::Instant::now();
     // ---- (c) DDL histories
-    let n_ddl = if thorough { 300 } else { 24 };
+    let n_ddl = if thorough { 200 } else { 24 };
     for i in 0..n_ddl {
         let shape = match i % 10 { 6 => 1, 7 | 8 => 2, _ => 0 };
         let len = 2 + rng.below(9) as usize;
@@ -936,7 +936,7 @@ fn gen(a: &Args) {
     }
     let t_c = std::time::Instant::now();
     // ---- (d) crash states of one more DDL statement
-    let n_crash = if thorough { 120 } else { 12 };
+    let n_crash = if thorough { 80 } else { 12 };
     for _ in 0..n_crash {
         let len = 1 + rng.below(5) as usize;
         let ops = gen_history(&mut rng, 0, len);
